@@ -45,6 +45,9 @@ def faulted(sc, rng, tier):
         s = coreutil.scenario_from_json(js); s.conn = conn; out.append((s, ('connect:' if conn != 'selfail' else 'selector-constructor:') + conn))
     for k in range(0, 8):
         s = coreutil.scenario_from_json(js); s.wfail = {k}; out.append((s, 'write#%d' % k))
+    for k in range(0, 8, 2):
+        # sendall 'interrupted' (EINTR) - part of the data may be out already: it is a failed write like any other, never to be repeated
+        s = coreutil.scenario_from_json(js); s.wfail = {k}; s.werrno = 4; out.append((s, 'write#%d:EINTR' % k))
     data = stream_of(sc)
     if len(data) < 200 or (tier == 'thorough' and len(data) <= 2000):
         offs = range(len(data) + 1)
@@ -96,6 +99,17 @@ def judge(res, js, line, real, what):
         rejected = 'rejected' in names
         if graceful and not client_close and not server_close and not rejected:
             return fail('graceful=True although neither side had started the closing handshake', 'graceful')
+    # a sendall that failed is a failed call: the application must get the error, and the data must not be written a second time
+    last_boundary = 0
+    for i, t in enumerate(tk):
+        if t.startswith('R:'):
+            seg = tk[last_boundary:i]
+            # (close() is not a send call: it reports nothing when its Close frame cannot be written - the connection is closing either way)
+            if t == 'R:ok' and any(x.startswith('WF:') and not x.startswith('WF:88') for x in seg):
+                return fail('an application call whose socket write failed returned normally (written again / error swallowed)', 'app-error')
+            last_boundary = i + 1
+        elif t.startswith('E:'):
+            last_boundary = i + 1
     # application calls with valid arguments fail only with WebSocketError subclasses
     for t in tk:
         if t.startswith('R:') and t[2:] not in ('ok', 'WebSocketClosed', 'WebSocketClosing', 'WebSocketUnavailable', 'TransportFail', 'TypeError', 'ValueError') and not t.startswith('R:WebSocketError('):
